@@ -173,6 +173,9 @@ def discharge_rule(rep, prog, tier):
             f = prog.fns.get(fpath)
             if f is not None and f["crate"] in LIBS:
                 what = k.split("|")[2] if k.count("|") >= 2 else "?"
+                if what == "hang":
+                    rep.violation("R2", "hang:%s" % pub_fn(fpath), "%s (%s): %s" % (fpath, k.split("|")[1], ob["detail"]), detail={"sources": sorted(ob["sources"])})
+                    continue
                 if any(k0 == pub_fn(fpath) and k1.startswith(what) for (k0, k1) in ALLOW):
                     continue
                 rep.violation("R1", "%s:%s:uninventoried" % (pub_fn(fpath), what), "%s: panic site %s (%s) fails in an analysis run and is not in the reachable-site inventory: %s" % (fpath, what, k.split("|")[1], ob["detail"]), detail={"sources": sorted(ob["sources"])})
